@@ -14,18 +14,25 @@ IdsOf(i, kind) == IF kind \in {"list", "glob"} THEN <<10 * i + 1, 10 * i + 2>>
                   ELSE IF kind \in {"object", "lookup", "nonobject", "nonstrkey"} THEN <<10 * i + 1>> ELSE <<>>
 \* share = TRUE: this argument names the SAME physical file as argument 1, with another lookup;
 \* alias = TRUE: it names exactly the same file and lookup as argument 1 again (possibly under another model name)
-RawArgs == UNION {[1..n -> [flag : {"m", "l"}, model : {"A", "B"}, kind : (IF Clean THEN OkKinds ELSE Kinds), share : BOOLEAN, alias : BOOLEAN]] : n \in 1..MaxArgs}
-ArgsSets == {x \in RawArgs :
-               \A i \in DOMAIN x :
-                  /\ (x[i].share => (i > 1 /\ x[i].kind = "lookup" /\ x[1].kind = "lookup" /\ ~x[i].alias))
-                  /\ (x[i].alias => (i > 1 /\ x[i].kind = x[1].kind /\ x[1].kind \in {"list", "object", "lookup", "glob"}))}
+KindSet == IF Clean THEN OkKinds ELSE Kinds
+Plain == [flag : {"m", "l"}, model : {"A", "B"}, kind : KindSet, share : {FALSE}, alias : {FALSE}]
+FirstArgs == {a \in Plain : a.model = "A"}
+\* what may follow a first argument f: any plain argument, the same file with another lookup (share), exactly the same argument again (alias)
+Later(f) == Plain
+            \cup (IF f.kind = "lookup" THEN [flag : {"m", "l"}, model : {"A", "B"}, kind : {"lookup"}, share : {TRUE}, alias : {FALSE}] ELSE {})
+            \cup (IF f.kind \in {"list", "object", "lookup", "glob"}
+                  THEN [flag : {"m", "l"}, model : {"A", "B"}, kind : {f.kind}, share : {FALSE}, alias : {TRUE}] ELSE {})
+ArgsN(n) == CASE n = 1 -> {<<f>> : f \in FirstArgs}
+              [] n = 2 -> UNION {{<<f, a>> : a \in Later(f)} : f \in FirstArgs}
+              [] OTHER -> UNION {{<<f, a, b>> : a \in Later(f), b \in Later(f)} : f \in FirstArgs}
+ArgsSets == UNION {ArgsN(n) : n \in 1..MaxArgs}
 \* at most one faulty thing per plan
 FaultCount(as) == Cardinality({i \in DOMAIN as : as[i].kind \notin OkKinds})
 Plans == {[args |-> [i \in DOMAIN as |-> [flag |-> as[i].flag, model |-> as[i].model, kind |-> as[i].kind, share |-> as[i].share,
                                             alias |-> as[i].alias,
                                             ids |-> IF as[i].alias THEN IdsOf(1, as[1].kind) ELSE IdsOf(i, as[i].kind)]],
            out |-> o, fault |-> f] :
-          as \in {x \in ArgsSets : FaultCount(x) <= 1 /\ x[1].model = "A"},
+          as \in {x \in ArgsSets : FaultCount(x) <= 1},
           o \in (IF Clean THEN {"none", "absent", "old"} ELSE {"none", "absent", "old", "unwritable"}),
           f \in (IF Clean THEN {"none"} ELSE {"none", "argparse", "merge", "fwgen", "mergearg", "import", "generator", "encode"})}
 GoodPlans == {p \in Plans : (FaultCount(p.args) = 0 \/ p.fault = "none") /\ (p.out # "unwritable" \/ (p.fault = "none" /\ FaultCount(p.args) = 0))}
